@@ -191,6 +191,8 @@ def int_calls(row, tier):
     if len(gs) == 1:
         return [(a,) for a in gs[0]]
     if len(gs) == 2:
+        if row.params[0] in ("f32", "f64") and tier != "thorough":      # binary float rows: the first 20 (special values) + 4 ordinary ones
+            gs = [g[:20] + g[-4:] for g in gs]
         return [(a, b) for a in gs[0] for b in gs[1]]
     # select
     return [(a, b, c) for a in gs[0][:6] for b in gs[1][:6] for c in [0, 1, 2, 1 << 31, 0xffffffff, 1 << 8]]
